@@ -139,7 +139,7 @@ class Feed(object):
     """One invocation of a hook, with everything observable about it."""
     __slots__ = ("kind", "cmd", "result", "fwd", "sent", "B0", "B1", "A0", "atrace", "code", "words",
                  "is_move", "dest_in", "opening", "closing", "episode0", "episode1", "enabled0", "enabled1",
-                 "active", "arc_hit", "regions", "refed")
+                 "active", "arc_hit", "regions", "refed", "k0", "k1")
 
     def __init__(self, kind, cmd):
         self.kind = kind
@@ -153,10 +153,11 @@ class Feed(object):
         self.is_move = self.dest_in = self.opening = self.closing = False
         self.arc_hit = False
         self.refed = []
+        self.k0 = self.k1 = None
 
 
 class Step(object):
-    __slots__ = ("ev", "feeds", "response", "msgs", "note", "tags")
+    __slots__ = ("ev", "feeds", "response", "msgs", "note", "tags", "before")
 
     def __init__(self, ev):
         self.ev = ev
@@ -165,6 +166,7 @@ class Step(object):
         self.msgs = []
         self.note = None
         self.tags = set()
+        self.before = []
 
 
 def arc_points(B0, words, cw):
@@ -299,8 +301,11 @@ class World(object):
     # ------------------------------------------------------------------------------ keys
     def model_key(self):
         f = self.f
+        # physical retraction depth is observable only by the C04/C05/C07 monitors
+        depth = self.cfg.get("key_depth", True)
         return (self.m_active, walk(self.m_regions), self.m_clear, self.m_shrink, self.m_homed, self.m_enabled,
-                self.episode, self.A.key(), self.B.key(), tuple(sorted(f.items())), self.max_depth_b,
+                self.episode, self.A.key(depth), self.B.key(depth), tuple(sorted(f.items())),
+                self.max_depth_b if depth else None,
                 self.file_g10, walk(sorted(self.mon.items())), self.uuid.n, walk(self.sv.__dict__))
 
     def key(self):
@@ -501,8 +506,11 @@ class World(object):
         H.set_user(False)
         st = Step(ev)
         self.pm.msgs = []
+        st.before = self.regions_impl()
         k = ev[0]
-        if k == "AT":
+        if k == "C10CHECK":
+            self._c10_check(st)
+        elif k == "AT":
             self._at(ev[1], ev[2], len(ev) > 3 and ev[3], st)
         elif k == "ADD":
             self._api("add", ev[2], ev[1], False, st)
@@ -578,8 +586,13 @@ class World(object):
                 self.m_homed = True
         self.comm.sent = []
         self.comm.streaming = False
+        track = self.cfg.get("track_keys") or not self.m_active
+        if track:
+            f.k0 = self.impl_key()
         f.result = self.call(self.plugin.handleGcodeQueuing, self.comm, "queuing", cmd, None, gcode, subcode,
                              tags=set())
+        if track:
+            f.k1 = self.impl_key()
         f.sent = list(self.comm.sent)
         try:
             f.fwd = H.decode(cmd, f.result)
@@ -630,7 +643,9 @@ class World(object):
         f.episode1 = self.episode
         self.comm.sent = []
         self.comm.streaming = bool(streaming)
+        f.k0 = self.impl_key()
         f.result = self.call(self.plugin.handleAtCommandQueuing, self.comm, "queuing", cmd, params, tags=set())
+        f.k1 = self.impl_key()
         self.comm.streaming = False
         f.sent = list(self.comm.sent)
         # MachineCom.sendCommand runs every command through the queuing hooks again
@@ -759,9 +774,10 @@ class World(object):
         f.enabled0 = f.enabled1 = self.m_enabled
         f.episode0 = self.episode
         f.regions = list(self.m_regions)
-        k0 = self.impl_key()
+        k0 = f.k0 = self.impl_key()
         self.comm.sent = []
         f.result = self.call(self.plugin.handleScriptHook, self.comm, stype, sname)
+        f.k1 = self.impl_key()
         f.sent = list(self.comm.sent)
         expect = self.m_active and self.episode and stype == "gcode" and sname == "afterPrintDone"
         if expect:
@@ -922,6 +938,133 @@ class World(object):
             if A.depth() > B.depth() + TOL or (A.fw and not B.fw):
                 st.tags.add("recovery-owed")
 
+
+    # ---- C02: transparency
+    def _mon_c02(self, st):
+        for f in st.feeds:
+            if f.kind == "gcode":
+                ok = f.result is None or (isinstance(f.result, list) and len(f.result) == 1 and f.result[0] == f.cmd)
+                if not ok:
+                    self.viol("C02 command %r was not forwarded verbatim although the program never touches an "
+                              "enabled region: hook returned %r" % (f.cmd, f.result), self._detail(f))
+                if f.sent:
+                    self.viol("C02 hook sent extra commands %r for %r" % (f.sent, f.cmd), self._detail(f))
+                st.tags.add("verbatim:" + (f.code or "?"))
+            elif f.kind == "at":
+                if f.sent:
+                    self.viol("C02 @-command produced commands %r although no episode can be open" % (f.sent,),
+                              self._detail(f))
+        if self.A.key() != self.B.key():
+            self.viol("C02 printer states differ although nothing should have been altered")
+
+    # ---- C11: lifecycle gating
+    def _mon_c11(self, st):
+        for f in st.feeds:
+            if f.active:
+                st.tags.add("hook-while-active")
+                continue
+            st.tags.add("hook-while-inactive")
+            if f.kind == "gcode":
+                if f.result is not None:
+                    self.viol("C11 gcode altered while no print is active: %r -> %r" % (f.cmd, f.result))
+                if f.sent:
+                    self.viol("C11 gcode hook sent commands while no print is active: %r" % (f.sent,))
+            elif f.kind == "at":
+                if f.sent:
+                    self.viol("C11 @-command processed while no print is active: %r sent %r" % (f.cmd, f.sent))
+            elif f.kind == "script":
+                if f.result is not None:
+                    self.viol("C11 script hook contributed %r while no print is active" % (f.result,))
+            if f.k0 is not None and f.k0 != f.k1:
+                self.viol("C11 %s %r changed the tracking state while no print is active" % (f.kind, f.cmd))
+        if st.note and st.note[0] == "event":
+            name = st.note[1]
+            st.tags.add("event:" + name)
+            if name not in END_EVENTS + ("PRINT_STARTED", "FILE_SELECTED") and not st.note[2]:
+                self.viol("C11 event %s changed the plugin state" % name)
+
+    # ---- C13: registry integrity and notification
+    def _mon_c13(self, st):
+        now = self.regions_impl()
+        ids = [r["id"] for r in now]
+        if len(ids) != len(set(ids)):
+            self.viol("C13 duplicate region ids %r after %r" % (ids, st.ev))
+        changed = norm_regions(now) != norm_regions(st.before) or [r["id"] for r in st.before] != ids
+        if st.note and st.note[0] == "api":
+            _, op, exp, got, mchanged, same_key, restricted, old, data = st.note
+            if got != exp:
+                self.viol("C13 %s request answered with status %r, expected %r (%r)" % (op, got, exp, st.ev))
+            if exp is not None:
+                st.tags.add("rejected:%s" % exp)
+                if changed or not same_key:
+                    self.viol("C13 rejected request (%s) modified the plugin state: %r" % (exp, st.ev))
+                if st.msgs:
+                    self.viol("C13 rejected request (%s) sent a notification: %r" % (exp, st.ev))
+            else:
+                st.tags.add("accepted:%s" % op)
+        if st.note and st.note[0] == "get":
+            if norm_regions(st.response) != norm_regions(now) or [r.get("id") for r in st.response] != ids:
+                self.viol("C13 GET response %r differs from the current list %r" % (st.response, now))
+            st.tags.add("get")
+        if changed:
+            st.tags.add("list-changed")
+            if len(st.msgs) != 1:
+                self.viol("C13 the region list changed but %d notifications were sent (%r)" % (len(st.msgs), st.ev))
+        for m in st.msgs:
+            pl = m.get("excluded_regions")
+            if m.get("event") != "ExcludedRegionsChanged" or pl is None or \
+                    norm_regions(pl) != norm_regions(now) or [r.get("id") for r in pl] != ids:
+                self.viol("C13 notification payload %r differs from the current list %r after %r" % (m, now, st.ev))
+
+    # ---- C12: excluded area never shrinks while printing unless allowed
+    def _mon_c12(self, st):
+        if not (st.note and st.note[0] == "api"):
+            return
+        _, op, exp, got, mchanged, same_key, restricted, old, data = st.note
+        now = self.regions_impl()
+        if restricted:
+            st.tags.add("restricted:%s:%s" % (op, got))
+            if op == "del" and (got != 409 and st.ev[4] is False):
+                self.viol("C12 delete request accepted while printing with shrinking disallowed: %r -> %r"
+                          % (st.ev, got))
+            # every sampled point excluded before must be excluded after
+            for g in st.before:
+                for (x, y) in G.extreme_points(g) + G_lattice(g):
+                    if G.contains_point(g, x, y) and not G.any_contains(now, x, y):
+                        self.viol("C12 point (%s, %s) was excluded by %r and is no longer excluded after %r "
+                                  "(status %r) while printing with shrinking disallowed"
+                                  % (float(x), float(y), g, st.ev, got))
+        if got != exp:
+            self.viol("C12 %s request answered with status %r, expected %r (%r)" % (op, got, exp, st.ev))
+        if exp is not None and not same_key:
+            self.viol("C12 refused request changed the plugin state: %r" % (st.ev,))
+
+    # ---- C15: a print that ends while excluding is cleaned up exactly once
+    def _mon_c15(self, st):
+        for f in st.feeds:
+            if f.kind != "script":
+                continue
+            _, expect, same_key = st.note
+            if expect:
+                st.tags.add("cleanup-contributed")
+                r = f.result
+                if not (isinstance(r, tuple) and len(r) == 2 and r[1] is None and isinstance(r[0], list) and r[0]
+                        and all(isinstance(c, str) and c for c in r[0])):
+                    self.viol("C15 print ended while excluding but the afterPrintDone hook returned %r "
+                              "(expected (prefix, None))" % (r,))
+                self._sync_check(f, "the afterPrintDone clean-up")
+                self._zorder_check(f)
+                if abs(self.A.E - self.B.E) > TOL:
+                    self.viol("C15 clean-up leaves the extruder coordinate at %s, file %s" % (float(self.A.E), float(self.B.E)))
+            else:
+                st.tags.add("nothing-contributed")
+                if f.result is not None:
+                    self.viol("C15 script hook %s contributed %r although %s" % (
+                        f.cmd, f.result, "no print is active" if not f.active else
+                        ("no episode is open" if not f.episode0 else "it is not gcode/afterPrintDone")))
+                if not same_key:
+                    self.viol("C15 script hook %s changed the plugin state without contributing" % f.cmd)
+
     # ------------------------------------------------------------------------------ reporting
     def _detail(self, f):
         return dict(cmd=f.cmd, result=repr(f.result), forwarded=f.fwd, sent=f.sent)
@@ -955,6 +1098,24 @@ class World(object):
         if st.msgs:
             d["notifications"] = len(st.msgs)
         return d
+
+
+def G_lattice(g, step=Fr(1, 4), cap=400):
+    """Lattice points of step 1/4 over the bounding box of region dict g (capped)."""
+    if g["type"] == "RectangularRegion":
+        x1, y1, x2, y2 = G.norm_rect(g)
+    else:
+        if G.is_empty(g):
+            return []
+        cx, cy, r = G.F(g["cx"]), G.F(g["cy"]), G.F(g["r"])
+        x1, y1, x2, y2 = cx - r, cy - r, cx + r, cy + r
+    nx = int((x2 - x1) / step) + 1
+    ny = int((y2 - y1) / step) + 1
+    while nx * ny > cap:
+        step *= 2
+        nx = int((x2 - x1) / step) + 1
+        ny = int((y2 - y1) / step) + 1
+    return [(x1 + i * step, y1 + j * step) for i in range(nx) for j in range(ny)]
 
 
 _SETTINGS = None
